@@ -233,6 +233,20 @@ CHECKS = {
         technique="TLA+ schedule enumeration replayed on real code with measured footprints, TLC trace validation, Go race detector",
         design_ref="DESIGN.md section 5 C20",
     ),
+    "C10": dict(
+        level="model_checking",
+        text=("Crop.tla defines the end time (start of the first sync sample of the reference track at or after the requested duration), "
+              "the per-track sample counts and the prefix property (Prop), and models the tool's table-cropping routines (Impl); TLC "
+              "checks for every run-length shape and cut point that the cropped tables expand to the prefix, enumerates abstract files "
+              "(sync sets, ctts, chunkings, a second audio track, audio-only) x requested durations on the sample-start grid and exports "
+              "them; the BUILT mp4ff-crop binary runs on each materialised file (stco / co64 / mdat-first / edit-list layouts) and its "
+              "output is expanded by the harness's own table reader and compared sample by sample (bytes, durations, composition "
+              "offsets, sync flags, offsets inside mdat, mdat size, header durations)."),
+        note=("Judged only when the tool exits 0 and the spec defines an end time inside every track; other outcomes are counted as "
+              "MODEL-DRIFT diagnostics. sdtp is not generated."),
+        technique="TLA+ spec + TLC exhaustive enumeration, replay through the built CLI binary with independent read-back",
+        design_ref="DESIGN.md section 5 C10",
+    ),
 }
 
 PENDING_REASON = "check not built yet in this revision (planned in DESIGN.md section 5); not claimed until its machinery exists"
